@@ -153,8 +153,8 @@ PField == {Prog(rs, << PutV(Use(f1, 1, S1, FRX, FALSE) \o Use(f2, 3, S1, RX(c, r
 NRec(ns, x) == [k \in 1..Len(ns) |-> F(ns[k], VStr(x))]
 NStreams == { << NRec(<< <<"a">>, <<"A", "b">>, <<"b", "1">>, <<"e2">> >>, <<"a", "b">>), NRec(<< <<"B">>, <<"1">> >>, <<"b">>), NRec(<< <<"a", "b", "a">> >>, <<>>) >>,
               << NRec(<< <<"b">>, <<"B", "b">> >>, <<"A", "b", "a", "B">>), NRec(<< <<"e2", "a">>, <<"A", "1">>, <<"a", "A">> >>, <<"B">>) >> }
-VerbRes == {pB, paGb, pUA, pCls, R1(<<Bol, cab, Eol>>), R1(<<Q(Grp(R1(<<Dot>>)), "")>>), R2(<<Bol, la>>, <<l1, Eol>>)}
-             \cup (IF Big THEN Shared \cup {R1(<<Q(Dot, "*")>>), R1(<<Bol, Q(nota, "+"), Eol>>)} ELSE {})
+VerbRes == {pB, paGb, pUA, pCls, R1(<<Bol, cab, Eol>>), R1(<<Q(Grp(R1(<<Dot>>)), "")>>), R2(<<Bol, la>>, <<l1, Eol>>), R1(<<Q(Dot, "*")>>)}
+             \cup (IF Big THEN Shared \cup {R1(<<Bol, Q(nota, "+"), Eol>>), R1(<<Q(lb, "?")>>)} ELSE {})
 VerbSrc == {"lit", "liti"}
 PVerbs == {Prog(rs, <<v>>) : rs \in NStreams, v \in
              UNION {{CutV(<<RX(c, re, <<>>)>>, x) : x \in BOOLEAN} \cup {CutV(<<RX(c, re, <<>>), RX("lit", pUA, <<>>)>>, FALSE)}
